@@ -410,7 +410,16 @@ static uint64_t rand_state = 1;
 void simenv_set_rand_seed(uint64_t s) { rand_state = s ? s : 1; }
 time_t sim_time(time_t *t) { time_t v = (time_t)(1000000000 + R.clock_us / 1000000); if (t) *t = v; return v; }
 pid_t sim_getpid(void) { return 4242; }
-int sim_rand(void) { rand_state = rand_state * 6364136223846793005ULL + 1442695040888963407ULL; return (int)((rand_state >> 33) & 0x7fffffff); }
+int sim_rand(void)
+{
+    int v;
+    rand_state = rand_state * 6364136223846793005ULL + 1442695040888963407ULL;
+    v = (int)((rand_state >> 33) & 0x7fffffff);
+    /* (Returning RAND_MAX itself now and then -- legal, and never seen in a lifetime of real runs -- makes builtin_random() compute
+       index n+1 through a float and yield nothing.  No given property says what %random yields, so this is not injected; see DESIGN.md 7.) */
+    if ((rand_state >> 20) % 40 == 1) v = 0;
+    return v;
+}
 void sim_srand(unsigned s) { (void)s; }   /* the run's seed decides the sequence; libast seeds from pid*time once per process (a function-static flag the simulator cannot reset) */
 void sim_exit(int code)
 {
